@@ -317,6 +317,9 @@ myth_tls_key_allocator_dealloc(myth_tls_key_allocator_t * s, int key) {
     return (myth_tls_destructor_fun_t)-1;
   }
   myth_tls_destructor_fun_t f = ke->destructor;
+  /* a deleted key has no destructor any more: values still stored under
+     it must not be passed to it when their threads exit */
+  ke->destructor = 0;
   /* push the cell to the free list */
   MYTH_VERIF_POINT("key.dealloc.readhead", s, key);
   ke->next = s->free;
